@@ -22,7 +22,7 @@ _th = {}
 
 
 def required(tier):
-    return ['equal-activity', 'scale', 'top-chemical', 'history', 'history:use_cache', 'history:no-cache', 'history:T-decrease', 'sle:solute-only', 'sle:solubility', 'sle:pure', 'sle:gamma=ideal', 'sle:solid-in-feed', 'method:shgo', 'method:pseudo equilibrium']
+    return ['equal-activity', 'scale', 'top-chemical', 'history', 'history:use_cache', 'history:no-cache', 'history:T-decrease', 'sle:solute-only', 'sle:solubility', 'sle:pure', 'sle:gamma=ideal', 'sle:solid-in-feed', 'sle:history', 'sle:history:pure-then-solvent', 'method:shgo', 'method:pseudo equilibrium']
 
 
 def thermo(ids, gamma=None):
@@ -46,7 +46,10 @@ def gen_sle(rng):
         S = sum(flows[1:]); m = flows[0]
         sol = round(min(0.999, m / (S + m) * rng.uniform(0.6, 1.6)), 6) if S else round(rng.random() * 0.6, 4)
     return {'t': 'sle', 'ids': ids, 'flows': flows, 'T': round(rng.uniform(250, 450), 2), 'dist': rng.choice([0.0, 1.0, round(rng.random(), 3), round(rng.random(), 3)]),
-            'solubility': sol, 'prior': rng.random() < 0.4, 'gamma': rng.choice([None, None, 'ideal'])}
+            'solubility': sol, 'prior': rng.random() < 0.4, 'gamma': rng.choice([None, None, 'ideal']),
+            # earlier calls on the same stream (and therefore the same remembered solver): other solvent amounts incl. none at all (pure solute), other T, given / computed solubility
+            'shist': [{'mult': [rng.choice([0.0, 0.0, 1.0, round(rng.uniform(0.2, 3), 3)]) for _ in solv], 'T': round(rng.uniform(250, 450), 2),
+                       'sol': rng.choice([None, None, round(rng.random() * 0.6, 4)])} for _ in range(rng.choice([0, 0, 1, 2, 3]))]}
 
 
 def gen_case(rng):
@@ -212,14 +215,39 @@ def run_sle(case, rec):
     present = float(before['s'][0] + before['l'][0])
     # a given solubility is only meaningful with a solvent (the pure-solute clause is about the melting point)
     kw = {'solubility': case['solubility']} if (case['solubility'] is not None and len(ids) > 1) else {}
+    def start(st):
+        st.imol['s', solute] = case['flows'][0] * case['dist']; st.imol['l', solute] = case['flows'][0] * (1 - case['dist'])
+        for i, v in zip(ids[1:], case['flows'][1:]): st.imol['l', i] = v
     try:
+        for h in case.get('shist', []):
+            for i, v, m_ in zip(ids[1:], case['flows'][1:], h['mult']): s.imol['l', i] = v * m_
+            hk = {'solubility': h['sol']} if (h['sol'] is not None and any(h['mult'])) else {}
+            try: s.sle(solute, T=h['T'], **hk)
+            except Exception as e:
+                if not numeric_failure(e): raise
+            start(s)
+            rec.hit('sle:history-step')
+            if not any(h['mult']) and len(ids) > 1: rec.hit('sle:history:pure-then-solvent')
         if case['prior']: s.sle(solute, T=min(T + 15, 450))       # an earlier call on the same solver
+        if case.get('shist') or case['prior']: start(s)
         s.sle(solute, T=T, **kw)
     except Exception as e:
         if numeric_failure(e): rec.refuse(f'sle refused: {type(e).__name__}'); return
         rec.exception('sle', e, what=f'sle on {ids} (solubility={case["solubility"]}) raised {type(e).__name__}: {str(e)[:140]}'); return
     after = rows(s)
     j = 0
+    if case.get('shist') or case['prior']:
+        # the same call on a fresh stream (fresh solver) from the same starting rows
+        f = tmo.MultiStream(None, phases=('s', 'l'), T=T, thermo=th); start(f)
+        try:
+            f.sle(solute, T=T, **kw)
+            rf = rows(f)
+            dev = max(float(np.abs(rf[p_] - after[p_]).max()) for p_ in ('s', 'l')) / max(present, 1e-300)
+            rec.check(dev <= 1e-7, 'sle:history', 'given' if kw else 'computed', f'sle({solute}, T={T}{", solubility" if kw else ""}) after {len(case.get("shist", []))} earlier calls differs from a fresh stream by {dev:.3g} of the solute: '
+                      f's/l = {after["s"][j]!r}/{after["l"][j]!r} vs fresh {rf["s"][j]!r}/{rf["l"][j]!r} (earlier calls: {case.get("shist")})', residual=dev)
+        except Exception as e:
+            if not numeric_failure(e): raise
+            rec.refuse('fresh sle refused')
     others_same = all(np.array_equal(np.delete(after[p], j), np.delete(before[p], j)) for p in ('s', 'l'))
     rec.check(others_same, 'sle:solute-only', 'rows', f'sle changed chemicals other than the solute: before {before} after {after}')
     tot = after['s'][j] + after['l'][j]
